@@ -307,6 +307,65 @@ fn prologue_msgs() -> Vec<Value> {
     ]
 }
 
+
+/// A burst of `n` requests written back to back (no waiting for answers): every one of them
+/// must be answered once the server has gone quiet. Returns the ids left unanswered.
+pub fn run_burst(n: usize) -> Result<Vec<i64>, String> {
+    let mut p = Proc::spawn(&[]).map_err(|e| e.to_string())?;
+    for m in prologue_msgs() {
+        p.send(&m);
+    }
+    let mut answered: BTreeSet<i64> = BTreeSet::new();
+    let mut init = false;
+    let start = std::time::Instant::now();
+    while !init && start.elapsed() < Duration::from_secs(20) {
+        if let Ok(Some(v)) = p.recv(Duration::from_millis(50)) {
+            if v["id"].as_i64() == Some(1) && v.get("method").is_none() {
+                init = true;
+            }
+        }
+    }
+    if !init {
+        return Err("no answer to initialize".into());
+    }
+    std::thread::sleep(Duration::from_millis(200));
+    for i in 0..n {
+        p.send(&json!({"jsonrpc": "2.0", "id": 1000 + i as i64, "method": "textDocument/hover", "params": {"textDocument": {"uri": uri("d1")}, "position": pos(0, 8)}}));
+    }
+    let pid = p.child.id();
+    let mut quiet = 0;
+    let start = std::time::Instant::now();
+    while answered.len() < n && start.elapsed() < Duration::from_secs(30) {
+        match p.recv(Duration::from_millis(20)) {
+            Ok(Some(v)) => {
+                quiet = 0;
+                if let (Some(id), true) = (v["id"].as_i64(), v.get("method").is_none()) {
+                    answered.insert(id);
+                } else if let (Some(_), Some(_)) = (v.get("id"), v["method"].as_str()) {
+                    let id = v["id"].clone();
+                    p.send(&json!({"jsonrpc": "2.0", "id": id, "result": null}));
+                }
+            }
+            Ok(None) => break,
+            Err(()) => {
+                // nothing to read: has the server physically gone quiet (every thread asleep)?
+                if crate::props::race::server_quiet(pid) {
+                    quiet += 1;
+                } else {
+                    quiet = 0;
+                }
+                if quiet >= 100 {
+                    break;
+                }
+            }
+        }
+    }
+    p.send(&json!({"jsonrpc": "2.0", "method": "exit", "params": null}));
+    p.close_stdin();
+    let _ = p.wait_exit(Duration::from_secs(2));
+    Ok((0..n as i64).map(|i| 1000 + i).filter(|i| !answered.contains(i)).collect())
+}
+
 pub fn run_seq_binary(seq: &[Tpl]) -> SeqResult {
     let mut problems = vec![];
     let mut p = match Proc::spawn(&[]) {
@@ -623,6 +682,25 @@ pub fn run(tier: Tier) -> i32 {
             rep.layer(l);
         }
     }
+    // bursts: n requests written without waiting for answers, n around and above the server's
+    // limit of concurrently handled requests (the number of cores)
+    {
+        let sizes: Vec<usize> = vec![4, 15, 16, 17, 24, 32, 48, 60, 64, 96];
+        let res: Vec<(usize, Result<Vec<i64>, String>)> = sizes.iter().map(|&n| (n, run_burst(n))).collect();
+        let mut l = Layer { name: "request-bursts".into(), exhaustive: false, ..Default::default() };
+        for (n, r) in res {
+            l.states += 1;
+            l.executions += 1;
+            l.transitions += n as u64;
+            match r {
+                Err(e) => rep.machinery(format!("burst of {n}: {e}")),
+                Ok(missing) if missing.is_empty() => {}
+                Ok(missing) => rep.violation(Violation { class: "no-response".into(), key: "burst of requests above the concurrency limit".into(), witness: json!({"burst": n}), detail: format!("[real binary] {n} hover requests written back to back: {} of them are never answered although the server has gone quiet (every thread asleep, nothing to read); first unanswered ids {:?}", missing.len(), missing.iter().take(5).collect::<Vec<_>>()) }),
+            }
+        }
+        l.bound = format!("bursts of {sizes:?} hover requests written without waiting for answers (a fresh server each); all must be answered by the time the server is physically quiet. A finite list of burst sizes, one run each - the interleaving inside the server is not controlled here");
+        rep.layer(l);
+    }
     if tier == Tier::Thorough {
         // binary, m = 3, sequences that contain a didChange and whose other two messages are notifications
         let notif: Vec<usize> = (0..tpls.len()).filter(|&i| matches!(tpls[i], Tpl::Notif { .. })).collect();
@@ -651,6 +729,13 @@ pub fn run(tier: Tier) -> i32 {
 }
 
 pub fn replay(w: &Value) -> Vec<String> {
+    if let Some(n) = w["burst"].as_u64() {
+        return match run_burst(n as usize) {
+            Ok(m) if m.is_empty() => vec![],
+            Ok(m) => vec![format!("no-response: {} of {n} requests unanswered", m.len())],
+            Err(e) => vec![format!("machinery: {e}")],
+        };
+    }
     let mut tpls = templates();
     for (_, g) in uri_templates() {
         tpls.extend(g);
